@@ -234,7 +234,76 @@ def oracle(ctx: Ctx, case) -> tuple[str, bool]:
     return applied, same
 
 
+# ------------------------------------------------------------------ expressions made through Task derivations
+_dkeys = st.sampled_from(["memory", "vcpus", "prov", "cache", "limits_x"])
+_dvals = st.sampled_from([1, 2, True, False])
+
+
+@st.composite
+def derive_cases(draw):
+    """A history of task derivations and calls on one Task: export_options(..), options(..), call."""
+    ops = []
+    ntasks = 1
+    for _ in range(draw(st.integers(3, 10))):
+        c = draw(st.sampled_from(["export", "options", "options", "call", "call"]))
+        src = draw(st.integers(0, ntasks - 1))
+        if c == "call":
+            ops.append(["call", src, draw(st.integers(0, 2))])
+        else:
+            ops.append([c, src, {draw(_dkeys): draw(_dvals)}])
+            ntasks += 1
+    if not any(o[0] == "call" for o in ops):
+        ops.insert(draw(st.integers(0, len(ops))), ["call", 0, 1])
+    return {"derive": True, "ops": ops}
+
+
+def derive_oracle(ctx: Ctx, case) -> None:
+    """Expressions are values: once built, neither later derivations of the task they came from nor
+    of its relatives may change what they denote. Every expression's identity and hash are recorded
+    when it is built and compared at the end; equal hashes must mean equal identities; the pickle
+    round trip preserves both."""
+    from redun import Task
+    from redun.utils import pickle_dumps, pickle_loads
+
+    def f(x):
+        return x
+
+    tasks = [Task(f, name="d0", namespace="vf_c18", source="def f(x): return x")]
+    made = []
+    for op in case["ops"]:
+        src = tasks[op[1] % len(tasks)]
+        with ctx.no_raise(f"Task.{op[0]}", case):
+            if op[0] == "export":
+                tasks.append(src.export_options(**op[2]))
+            elif op[0] == "options":
+                tasks.append(src.options(**op[2]))
+            else:
+                e = src(op[2])
+                made.append((e, e.get_hash(), identity(e)))
+    by_hash = {}
+    for n, (e, h, ident) in enumerate(made):
+        now = identity(e)
+        ctx.require(now == ident, "derive:expression-changed-after-the-fact",
+                    f"expression #{n} {srepr(e)} denoted {ident} when it was built and now denotes {now}: a later derivation of "
+                    f"its task changed it", case)
+        ctx.require(e._calc_hash() == h, "derive:hash-stale", f"expression #{n}: the hash taken when it was built is no longer the "
+                    f"hash of what it holds", case)
+        r = pickle_loads(pickle_dumps(e))
+        ctx.require(r.get_hash() == h and identity(r) == ident, "derive:roundtrip", f"expression #{n}: hash/identity changed over the "
+                    f"pickle round trip ({h[:10]} -> {r.get_hash()[:10]}, {ident} -> {identity(r)})", case)
+        if h in by_hash and by_hash[h] != ident:
+            raise Violation("derive:hash-collision", f"two expressions with hash {h[:10]} denote different calls: {by_hash[h]} vs {ident}", case)
+        by_hash[h] = ident
+
+
 def run_case(ctx: Ctx, case) -> None:
+    if case.get("derive"):
+        try:
+            derive_oracle(ctx, case)
+        finally:
+            kinds = {o[0] for o in case["ops"]}
+            ctx.case(case, labels=["derive"] + sorted(f"op:{k}" for k in kinds), nontrivial={"export", "options", "call"} <= kinds)
+        return
     applied, same = "?", True
     try:
         applied, same = oracle(ctx, case)
@@ -246,7 +315,11 @@ def run_case(ctx: Ctx, case) -> None:
 
 def check(ctx: Ctx) -> None:
     ctx.given(cases(), lambda c: run_case(ctx, c), ctx.n(1500, 50000))
+    ctx.given(derive_cases(), lambda c: run_case(ctx, c), ctx.n(300, 8000))
 
 
 def replay(ctx: Ctx, case) -> None:
+    if case.get("derive"):
+        derive_oracle(ctx, case)
+        return
     oracle(ctx, case)
